@@ -14,19 +14,6 @@ LEVEL = 'proof'
 TSAN_ENV = {'TSAN_OPTIONS': 'halt_on_error=0 report_signal_unsafe=0 exitcode=66 history_size=4'}
 
 
-def void_type_fixed():
-    """fixes/C18-3.patch (c2mir's shared VOID_TYPE written by set_type_layout) present in the tree under test?  Until the
-    coordinator has committed it, C units that make pointers to VOID_TYPE (alloca, &&label) stay out of the thread sets."""
-    try:
-        txt = open(os.path.join(vlib.REPO, 'c2mir', 'c2mir.c'), errors='replace').read()
-    except OSError:
-        return True
-    return re.search(r'VOID_TYPE\s*=\s*\{\s*\.raw_size\s*=\s*MIR_SIZE_MAX', txt) is None
-
-
-VOID_TYPE_UNITS = {'control', 'alloca'}
-
-
 def build():
     # harness/c17_api.h is #included, not listed as a source: its hash goes into the flags so that an edit rebuilds
     hh = vlib.file_hash([os.path.join(vlib.VERIF, 'harness', 'c17_api.h')])
@@ -235,11 +222,6 @@ def run(chk):
         'ThreadSanitizer (gcc 12 libtsan) for races through memory not named by a static object; the OS scheduler chooses the interleavings actually run',
         'harness/c18_threads.c, harness/c17_api.h']
     rng = chk.rng('threads')
-    G.tree_flags(vlib.REPO)
-    G.EXCLUDE_TAGS = set() if void_type_fixed() else set(VOID_TYPE_UNITS)
-    if G.EXCLUDE_TAGS:
-        chk.notes.append('tree without fixes/C18-3.patch: C units %s (alloca / label addresses -> shared VOID_TYPE) left out of '
-                         'the thread sets' % sorted(G.EXCLUDE_TAGS))
     sets = []
     corpus = os.path.join(vlib.VERIF, 'corpus', 'c18_sets.jsonl')
     if os.path.exists(corpus):
@@ -248,7 +230,7 @@ def run(chk):
                 j = json.loads(l)
                 sets.append(('corpus:' + j['set'], j['threads'], j['reps']))
     sets += [(name, th, reps) for name, th, reps in focused_sets(rng)]
-    nrand = 14 if quick else 1000
+    nrand = 14 if quick else 300
     for _ in range(nrand):
         nt = rng.choice([2, 3, 4, 6, 8])
         th = [G.Scen(rng, [0], threads=True).lines for _ in range(nt)]
@@ -325,17 +307,20 @@ def run(chk):
     for name, th, reps in sets:
         if name.startswith('corpus:'):
             ro_scripts += [list(t) for t in th[:1]]
-    for obj, (sc, detail) in sorted(ro_statics_pass(chk, ro_scripts).items()):
+    for sc in ro_scripts:
         chk.count(('ro', sc), nontrivial=True)
+    chk.dist('sets', 'read-only-statics(single thread)', len(ro_scripts))
+    for obj, (sc, detail) in sorted(ro_statics_pass(chk, ro_scripts).items()):
         detail['statics_entry'] = [o for o in objs if o['name'] == obj]
         found.setdefault('static-write:' + obj, (['threads 1 reps 1 mode seq alloc default'] + ['0 ' + l for l in sc] + ['end'], detail,
                                                  'a library function stored to the process-wide static object %s (in %s)' % (
                                                      obj, detail['written_by'])))
     chk.cov['ro_statics_scripts'] = len(ro_scripts)
-    chk.cov['rule'] = ('each case is a set of per-thread API scripts run twice by harness/c18_threads.c under ThreadSanitizer: all '
+    chk.cov['rule'] = ('each case is either a set of per-thread API scripts run twice by harness/c18_threads.c under ThreadSanitizer: all '
                       'threads in parallel (each with its own context, scripts repeated so that creation/destruction overlap) '
-                      'and one after another; TSan reports and per-thread result differences are failures; non-trivial = >= 2 '
-                      'threads; distinct by script text')
+                      'and one after another; TSan reports, hangs and per-thread result differences are failures; or one API script '
+                      'run in one thread by harness/c18_rostatics.c with the library\'s static data pages read-only (a store to a '
+                      'static is a failure); non-trivial = >= 2 threads or a read-only-statics script; distinct by script text')
     for name, th, reps in sets[:2] + sets[5:6]:
         chk.sample(('%s x%d: ' % (name, reps)) + ' || '.join(' ; '.join(l[:40] for l in sc[:8]) for sc in th[:2])[:500])
     chk.log('%d thread sets, %d TSan reports, %d distinct failure signatures' % (len(sets), nrep, len(found)))
